@@ -388,6 +388,49 @@ def handle (j : Json) : R Json := do
     match findModule n m with
     | none => throw "judge_call: no such module"
     | some mod => return Json.mkObj [("ok", Json.bool (callWithinLimitsB (mkEnv t .none) mod (← fldStr j "attr") (← fldStr j "v")))]
+  | "serial" =>
+    -- the handler sections of a run with several connections: one request at a time (a run of the change-section
+    -- system restricted to begin / finish)
+    let acts ← (← fldArr j "acts").mapM (fun a => do
+      match ← arr a with
+      | [.str "begin", t] => return (ChangeSection.Act.begin (← t.getNat?) : ChangeSection.Act Unit Unit)
+      | [.str "finish", t] => return ChangeSection.Act.finish (← t.getNat?)
+      | _ => throw s!"bad act {a.compress}")
+    return Json.mkObj [("ok", Json.bool (ChangeSection.run (fun _ _ => none) (ChangeSection.init ()) acts).isSome)]
+  | "changerun" =>
+    -- the events of the real change path (acquire / merge / call / direct / store / release per thread) replayed on the
+    -- change-section system, with the datatype model of C01 as merge function; and every driver call a request caused
+    -- judged on its own: payload merged into the value cached at the moment of the call
+    let dt ← dtypeOfJson (← fld j "dtree")
+    let cur ← pvalOfJson (← fld j "init")
+    let acts ← (← fldArr j "acts").mapM (fun a => do
+      match ← arr a with
+      | [.str "begin", t] => return ChangeSection.Act.begin (← t.getNat?)
+      | [.str "finish", t] => return ChangeSection.Act.finish (← t.getNat?)
+      | [.str "acquire", t] => return ChangeSection.Act.acquire (← t.getNat?)
+      | [.str "release", t] => return ChangeSection.Act.release (← t.getNat?)
+      | [.str "merge", t, p] => return ChangeSection.Act.merge (← t.getNat?) (← jvalOfJson p)
+      | [.str "call", t] => return ChangeSection.Act.call (← t.getNat?)
+      | [.str "direct", t] => return ChangeSection.Act.direct (← t.getNat?)
+      | [.str "store", t, v] => return ChangeSection.Act.store (← t.getNat?) (← pvalOfJson v)
+      | _ => throw s!"bad act {a.compress}")
+    let observed ← (← fldArr j "calls").mapM (fun c => do
+      match ← arr c with
+      | [t, p, cur, v] => return (← t.getNat?, ← jvalOfJson p, ← pvalOfJson cur, ← pvalOfJson v)
+      | _ => throw s!"bad call {c.compress}")
+    let verdicts := observed.map (fun c => callMergesCurrentB dt c.2.1 c.2.2.1 c.2.2.2)
+    let expected := observed.map (fun c => match mergeC01 dt c.2.1 c.2.2.1 with
+      | some w => pvalToJson w
+      | none => Json.str "refused")
+    match ChangeSection.run (mergeC01 dt) (ChangeSection.init cur) acts with
+    | none => return Json.mkObj [("ok", Json.bool false), ("same", Json.null), ("calls", jarr (verdicts.map Json.bool)),
+        ("expected", jarr expected)]
+    | some s =>
+      -- the calls the system predicts are the calls the driver saw (thread, value given, value cached at that moment)
+      let same := s.calls.length == observed.length &&
+        (s.calls.zip observed).all (fun (m, o) => m.thread == o.1 && PVal.same m.value o.2.2.2 && PVal.same m.current o.2.2.1)
+      return Json.mkObj [("ok", Json.bool true), ("same", Json.bool same), ("calls", jarr (verdicts.map Json.bool)),
+        ("expected", jarr expected), ("final", pvalToJson s.cur)]
   | _ => throw s!"C04: unknown verb {k}"
 
 end Frappy.Drive.C04
